@@ -84,7 +84,10 @@ func genCmp(g *lib.Rand, flavour int) *Cmp {
 		}
 		return &Cmp{Kind: "bits", Bits: bits}
 	}
-	return &Cmp{Kind: "failat", K: int64(g.Range(1, 12))}
+	if g.Chance(20) {
+		return &Cmp{Kind: "yieldat", K: int64(g.Range(1, 8))}
+	}
+	return &Cmp{Kind: "failat", K: int64(g.Range(1, 12)), M: int64(g.Pick(70, 20, 10))}
 }
 
 // genInnerCmp: comparator of a nested sort. safe = it cannot raise on a list of the given flavour
@@ -96,7 +99,7 @@ func genInnerCmp(g *lib.Rand, flavour int, safe bool) *Cmp {
 		switch c.Kind {
 		case "meta", "metalt":
 			continue
-		case "failat":
+		case "failat", "yieldat":
 			if safe {
 				continue
 			}
@@ -110,7 +113,7 @@ func genInnerCmp(g *lib.Rand, flavour int, safe bool) *Cmp {
 }
 
 // genNest: what a comparator does besides answering (see Nest). depth 1 = acts of the outer
-// comparator; their comparators may re-enter once more (depth 2).
+// comparator; their comparators may re-enter in turn (up to four levels).
 func genNest(g *lib.Rand, depth int) *Nest {
 	n := &Nest{At: int64(g.Range(1, 4)), Every: int64([]int{0, 1, 1, 2, 3, 5}[g.Intn(6)])}
 	for i, k := 0, g.Range(1, 3); i < k; i++ {
@@ -133,8 +136,8 @@ func genNest(g *lib.Rand, depth int) *Nest {
 		if fl == 2 && (a.Cmp.Kind == "mod" || a.Cmp.Kind == "const" || a.Cmp.Kind == "bits") {
 			a.Cmp = &Cmp{Kind: "lt"}
 		}
-		if depth == 1 && a.Cmp.Kind != "default" && a.Cmp.Kind != "nil" && g.Chance(30) {
-			a.Nest = genNest(g, 2)
+		if depth < 4 && a.Cmp.Kind != "default" && a.Cmp.Kind != "nil" && g.Chance(30) {
+			a.Nest = genNest(g, depth+1)
 		}
 		n.Acts = append(n.Acts, a)
 	}
@@ -158,6 +161,20 @@ func (p *planner) next(r *runner) *Step {
 		p.pending = p.pending[1:]
 		return &s
 	}
+	if st := p.next1(r); st != nil {
+		switch st.Op {
+		case "ins2", "ins3", "rem1", "rem2", "remnil", "concat", "unpack", "getn", "maxn":
+			// the same call from inside a coroutine of its own: nothing may change
+			if p.g.Chance(4) {
+				st.Co = true
+			}
+		}
+		return st
+	}
+	return nil
+}
+
+func (p *planner) next1(r *runner) *Step {
 	if p.left <= 0 {
 		return nil
 	}
@@ -325,7 +342,7 @@ func generate(w *lib.Writer, r *lib.Rand, tier string) {
 			withFn := g.Chance(60)
 			k := g.Range(150, 400)
 			if withFn {
-				k = g.Range(40, 110)
+				k = g.Range(13, 110)
 			}
 			var steps []Step
 			for q := 0; q < k; q++ {
